@@ -1,6 +1,8 @@
 import LoraVerif.Model.Device
 import LoraVerif.Props.C05
 import LoraVerif.Lemmas.MacWFStep
+import LoraVerif.Lemmas.GhostC
+import LoraVerif.Lemmas.RefineC
 /-!
 # C07 — frames that are not accepted change nothing
 
@@ -530,6 +532,692 @@ example : thinEvs demoScript demoHistory =
 example : (run lcg (MacState.init (RegionState.init .EU868) 14 0, 1) demoHistory).toOption.map (fun r => r.2.length) = some 5 := by
   decide +kernel
 
+/-! ## extended histories: deleting rejected frames heard INSIDE the receive procedure is invisible
+
+`Model/HistoryC.lean`: a Class C device hands the frames it hears on the RXC parameters between TX and
+RX1 (`c1`) and between RX1 and RX2 (`c2`) to `handle_rxc` in the middle of the procedure.  A deletion
+script may now also delete frames from `c1` / `c2` (flag lists), each judged by the reference under
+the counter the reference holds AT THAT POINT of the procedure (`LegalCs`, `lastAfterCs`). -/
+
+/-- what an extended deletion script does to one event: keep it, delete a Class C reception between
+uplinks, or delete frames heard during a receive procedure: from `c1` (flag per frame, `true` =
+delete), RX1, from `c2`, RX2 -/
+inductive DelC where
+  | keep
+  | drop
+  | thin (k1 : List Bool) (b1 : Bool) (k2 : List Bool) (b2 : Bool)
+  deriving DecidableEq, Repr
+
+def thinCs {α} : List Bool → List α → List α
+  | true :: ks, _ :: cs => thinCs ks cs
+  | false :: ks, c :: cs => c :: thinCs ks cs
+  | _, cs => cs
+
+/-- during a JOIN procedure ANY frame heard on the RXC parameters may be deleted: a device without a
+session accepts none of them (`joinC_rxc_frames_invisible` below) -/
+def thinEvC (k1 : List Bool) (b1 : Bool) (k2 : List Bool) (b2 : Bool) : EvC → EvC
+  | .uplinkC cc data fport conf fault c1 rx1 c2 rx2 =>
+    .uplinkC cc data fport conf fault (thinCs k1 c1) (maskRx b1 rx1) (thinCs k2 c2) (maskRx b2 rx2)
+  | .joinC cc fault c1 rx1 c2 rx2 => .joinC cc fault (thinCs k1 c1) (maskRx b1 rx1) (thinCs k2 c2) (maskRx b2 rx2)
+  | .base e => .base (maskEv b1 b2 e)
+
+def thinEvsC : List DelC → List EvC → List EvC
+  | .keep :: ds, ev :: evs => ev :: thinEvsC ds evs
+  | .drop :: ds, _ :: evs => thinEvsC ds evs
+  | .thin k1 b1 k2 b2 :: ds, ev :: evs => thinEvC k1 b1 k2 b2 ev :: thinEvsC ds evs
+  | _, evs => evs
+
+def thinOutsC : List DelC → List OutC → List OutC
+  | .keep :: ds, o :: os => o :: thinOutsC ds os
+  | .drop :: ds, _ :: os => thinOutsC ds os
+  | .thin _ _ _ _ :: ds, o :: os => o :: thinOutsC ds os
+  | _, os => os
+
+/-- an output without the `NoUpdate` entries of its `heard` list (one per rejected frame heard on the
+RXC parameters inside the procedure; they carry nothing: no response, no downlink) -/
+def strip (oc : OutC) : OutC := { oc with heard := oc.heard.filter (· != noUp) }
+
+/-- the reference's counter after one more frame heard on the RXC parameters -/
+def nextLast (last : Option Nat) (v : RxView) (mpc : Nat) : Option Nat :=
+  match specRxc last v mpc with
+  | some (N, _) => some N
+  | none => last
+
+/-- … after a list of them -/
+def lastAfterCs (last : Option Nat) (mpc : Nat) (cs : List (RxView × Int)) : Option Nat :=
+  cs.foldl (fun l c => nextLast l c.1 mpc) last
+
+/-- every frame deleted from a list heard on the RXC parameters is one the reference rejects under
+the counter it holds when that frame is heard -/
+def LegalCs (mpc : Nat) : Option Nat → List Bool → List (RxView × Int) → Prop
+  | last, k :: ks, c :: cs => (k = true → RejRxc (some last) c.1 mpc) ∧ LegalCs mpc (nextLast last c.1 mpc) ks cs
+  | _, _, _ => True
+
+instance (mpc : Nat) : (last : Option Nat) → (ks : List Bool) → (cs : List (RxView × Int)) → Decidable (LegalCs mpc last ks cs)
+  | _, [], _ => isTrue (by simp [LegalCs])
+  | _, _ :: _, [] => isTrue (by simp [LegalCs])
+  | last, k :: ks, c :: cs =>
+    have := instDecidableLegalCs mpc (nextLast last c.1 mpc) ks cs
+    by simp only [LegalCs]; infer_instance
+
+/-- the deletion hits only frames the reference rejects at that point of the extended history
+(`out`: the output of the event — the payload limits of the two windows are those of the uplink the
+MAC built) -/
+def LegalDelC (gh : Gh) (e : EvL) (out : OutC) : DelC → Prop
+  | .keep => True
+  | .drop =>
+    (match e.2 with
+     | .base ev => LegalDel gh .drop ev
+     | _ => False)
+  | .thin k1 b1 k2 b2 =>
+    (match e.2 with
+     | .base ev => LegalDel gh (.mask b1 b2) ev
+     | .joinC _ _ _ rx1 _ rx2 => (b1 = true → heard RejJoin rx1) ∧ (b2 = true → heard RejJoin rx2)
+     | .uplinkC cc _ _ _ _ c1 rx1 c2 rx2 =>
+       (match gh, out.out with
+        | some last, .up so _ _ =>
+          (cc = true → LegalCs e.1 last k1 c1) ∧
+          (b1 = true → heard (RejWin (some (if cc then lastAfterCs last e.1 c1 else last)) · so.tx.rx1.maxPayload.toNat) rx1) ∧
+          (cc = true → LegalCs e.1 (lastAfterCs last e.1 c1) k2 c2) ∧
+          (b2 = true → heard (RejWin (some (if cc then lastAfterCs (lastAfterCs last e.1 c1) e.1 c2 else last)) · so.tx.rx2.maxPayload.toNat) rx2)
+        | _, _ => True))
+
+def LegalC : Gh → List DelC → List (EvL × OutC) → Prop
+  | gh, d :: ds, x :: t => LegalDelC gh x.1 x.2 d ∧ LegalC (ghNextC gh x.1 x.2) ds t
+  | _, _, _ => True
+
+theorem thinCs_ok (ks : List Bool) (cs : List (RxView × Int)) (h : csOk cs = true) : csOk (thinCs ks cs) = true := by
+  induction cs generalizing ks with
+  | nil => cases ks with | nil => exact h | cons k ks => cases k <;> exact h
+  | cons c rest ih =>
+    simp only [csOk, List.all_cons, Bool.and_eq_true] at h
+    cases ks with
+    | nil => simp only [thinCs, csOk, List.all_cons, Bool.and_eq_true]; exact h
+    | cons k ks =>
+      cases k with
+      | true => simp only [thinCs]; exact ih ks h.2
+      | false =>
+        simp only [thinCs, csOk, List.all_cons, Bool.and_eq_true]
+        exact ⟨h.1, ih ks h.2⟩
+
+theorem refRxcs_last (mpc : Nat) (cs : List (RxView × Int)) :
+    ∀ p : PSt, (refRxcs p mpc cs).st.last = lastAfterCs p.last mpc cs := by
+  induction cs with
+  | nil => intro p; rfl
+  | cons c rest ih =>
+    intro p
+    obtain ⟨v, snr⟩ := c
+    unfold refRxcs
+    simp only [lastAfterCs, List.foldl_cons, nextLast]
+    cases hs : specRxc p.last v mpc with
+    | none => simp only []; exact ih p
+    | some q => obtain ⟨N, d⟩ := q; simp only []; exact ih ⟨some N, bumpFu p.fu⟩
+
+/-- **deleting rejected frames from what is heard on the RXC parameters**: same state; the reports
+differ by the `NoUpdate` entries of the deleted frames only -/
+theorem rxcs_thin (mp : Nat) (cs : List (RxView × Int)) (hv : csOk cs = true) :
+    ∀ (ks : List Bool) (m : MacState) (s : Session), m.st = .joined s → LastOk s.fcntDown → LegalCs mp s.fcntDown ks cs →
+      ∃ os os' m', rxcs m mp cs = .ok (os, true, m') ∧ rxcs m mp (thinCs ks cs) = .ok (os', true, m') ∧
+        os'.filter (· != noUp) = os.filter (· != noUp) := by
+  induction cs with
+  | nil =>
+    intro ks m s hst hl _
+    refine ⟨[], [], m, rfl, ?_, rfl⟩
+    cases ks with | nil => rfl | cons k ks => cases k <;> rfl
+  | cons c rest ih =>
+    intro ks m s hst hl hleg
+    obtain ⟨v, snr⟩ := c
+    simp only [csOk, List.all_cons, Bool.and_eq_true] at hv
+    have hrest : csOk rest = true := hv.2
+    -- the frame is handled (kept on both sides): one common first step
+    have keep : ∀ ks', LegalCs mp (nextLast s.fcntDown v mp) ks' rest →
+        ∃ os os' m', rxcs m mp ((v, snr) :: rest) = .ok (os, true, m') ∧
+          rxcs m mp ((v, snr) :: thinCs ks' rest) = .ok (os', true, m') ∧ os'.filter (· != noUp) = os.filter (· != noUp) := by
+      intro ks' hleg'
+      cases hs : specRxc s.fcntDown v mp with
+      | none =>
+        have hnl : nextLast s.fcntDown v mp = s.fcntDown := by simp only [nextLast, hs]
+        rw [hnl] at hleg'
+        obtain ⟨os, os', m', h1, h2, h3⟩ := ih hrest ks' m s hst hl hleg'
+        refine ⟨noUp :: os, noUp :: os', m', ?_, ?_, ?_⟩
+        · simp only [rxcs, macHandleRxc_joined_none m s hst hl v mp snr hv.1 hs, bind, Except.bind, pure, Except.pure, h1]
+        · simp only [rxcs, macHandleRxc_joined_none m s hst hl v mp snr hv.1 hs, bind, Except.bind, pure, Except.pure, h2]
+        · simp only [List.filter_cons, h3]
+      | some q =>
+        obtain ⟨N, d⟩ := q
+        obtain ⟨hrx, ha, hw⟩ := macHandleRxc_joined_some m s hst hl v mp snr hv.1 N d hs
+        have hnl : nextLast s.fcntDown v mp = some N := by simp only [nextLast, hs]
+        rw [hnl] at hleg'
+        have hfd : (acceptFinish s d N (ctxC m s)).2.1.fcntDown = some N := by rw [acceptFinish_session_eq]
+        have hl1 : LastOk (acceptFinish s d N (ctxC m s)).2.1.fcntDown := by
+          rw [hfd]; exact fresh_lastOk hw (accepts_some.mp ha).2.1
+        rw [← hfd] at hleg'
+        obtain ⟨os, os', m', h1, h2, h3⟩ :=
+          ih hrest ks' (acceptState m s d N (ctxC m s)) _ (acceptState_st m s d N (ctxC m s)) hl1 hleg'
+        refine ⟨acceptOut s d N (ctxC m s) :: os, acceptOut s d N (ctxC m s) :: os', m', ?_, ?_, ?_⟩
+        · simp only [rxcs, hrx, bind, Except.bind, pure, Except.pure, h1]
+        · simp only [rxcs, hrx, bind, Except.bind, pure, Except.pure, h2]
+        · simp only [List.filter_cons, h3]
+    cases ks with
+    | nil =>
+      have := keep [] (by cases rest <;> simp [LegalCs])
+      have e : thinCs ([] : List Bool) rest = rest := by cases rest <;> rfl
+      rw [e] at this
+      exact this
+    | cons k ks =>
+      simp only [LegalCs] at hleg
+      cases k with
+      | false => exact keep ks hleg.2
+      | true =>
+        -- the frame is deleted: the reference rejects it, the model answers `NoUpdate` and moves on
+        have hrej := hleg.1 rfl
+        have hs : specRxc s.fcntDown v mp = none := by
+          unfold RejRxc at hrej
+          unfold specRxc
+          cases v with
+          | garbage => rfl
+          | joinAccept j => rfl
+          | data d => simp only at hrej ⊢; rw [hrej]; rfl
+        have hnl : nextLast s.fcntDown v mp = s.fcntDown := by simp only [nextLast, hs]
+        rw [hnl] at hleg
+        obtain ⟨os, os', m', h1, h2, h3⟩ := ih hrest ks m s hst hl hleg.2
+        refine ⟨noUp :: os, os', m', ?_, h2, ?_⟩
+        · simp only [rxcs, macHandleRxc_joined_none m s hst hl v mp snr hv.1 hs, bind, Except.bind, pure, Except.pure, h1]
+        · rw [h3]
+          simp [List.filter_cons, noUp]
+
+theorem window_mask_joined (m : MacState) (s : Session) (hst : m.st = .joined s) (hl : LastOk s.fcntDown)
+    (f : Option (RxView × Int)) (mp : Nat) (b : Bool) (hf : rxOk f = true)
+    (hb : b = true → heard (RejWin (some s.fcntDown) · mp) f) : window m (maskRx b f) mp = window m f mp := by
+  rw [window_joined m s hst hl _ mp (rxOk_mask b f hf), window_joined m s hst hl f mp hf, specWindow_mask s.fcntDown b f mp hb]
+
+theorem filter_append_eq {os os' : List RxOut} (o : List RxOut) (h : os'.filter (· != noUp) = os.filter (· != noUp)) :
+    (os' ++ o).filter (· != noUp) = (os ++ o).filter (· != noUp) := by
+  rw [List.filter_append, List.filter_append, h]
+
+/-- one window with what precedes it: deleting rejected frames (heard on the RXC parameters before it,
+or in it) changes neither its verdict nor the state it leaves -/
+theorem winC_thin (cc : Bool) (m : MacState) (s : Session) (hst : m.st = .joined s) (hl : LastOk s.fcntDown)
+    (cs : List (RxView × Int)) (f : Option (RxView × Int)) (mp : Nat) (eb ea : Bool) (hv : csOk cs = true) (hf : rxOk f = true)
+    (ks : List Bool) (b : Bool) (hk : cc = true → LegalCs (rxcMp m) s.fcntDown ks cs)
+    (hb : b = true → heard (RejWin (some (if cc then lastAfterCs s.fcntDown (rxcMp m) cs else s.fcntDown)) · mp) f)
+    (r : Option (Option RxOut)) (os : List RxOut) (m' : MacState) (h : winC cc m cs f mp eb ea = .ok (r, os, m')) :
+    ∃ os', winC cc m (thinCs ks cs) (maskRx b f) mp eb ea = .ok (r, os', m') ∧ os'.filter (· != noUp) = os.filter (· != noUp) := by
+  unfold winC at h ⊢
+  obtain ⟨⟨os1, fin, m1⟩, hbw, hk1⟩ := Except.bind_eq_ok h
+  clear h
+  -- the state before the window, on both sides
+  have hbt : ∃ osB s1, fin = true ∧ between cc m (thinCs ks cs) = .ok (osB, true, m1) ∧ osB.filter (· != noUp) = os1.filter (· != noUp) ∧
+      m1.st = .joined s1 ∧ LastOk s1.fcntDown ∧ s1.fcntDown = (if cc then lastAfterCs s.fcntDown (rxcMp m) cs else s.fcntDown) := by
+    unfold between at hbw ⊢
+    cases cc with
+    | false =>
+      simp only [Bool.false_eq_true, if_false, pure, Except.pure, Except.ok.injEq, Prod.mk.injEq] at hbw
+      obtain ⟨rfl, rfl, rfl⟩ := hbw
+      exact ⟨[], s, rfl, rfl, rfl, hst, hl, rfl⟩
+    | true =>
+      simp only [if_true] at hbw ⊢
+      obtain ⟨rf, hrf, hbw⟩ := Except.bind_eq_ok hbw
+      rw [rxcMp_of_ok hrf] at hbw
+      obtain ⟨osA, osB, m2, h1, h2, h3⟩ := rxcs_thin (rxcMp m) cs hv ks m s hst hl (hk rfl)
+      obtain ⟨m3, s3, h4, _, hst3, _, _, hp3, hl3, _⟩ := rxcs_joined (rxcMp m) cs hv m s hst hl
+      rw [h1] at hbw h4
+      simp only [Except.ok.injEq, Prod.mk.injEq] at hbw h4
+      obtain ⟨rfl, rfl, rfl⟩ := hbw
+      obtain ⟨_, _, rfl⟩ := h4
+      refine ⟨osB, s3, rfl, ?_, h3, hst3, hl3, ?_⟩
+      · simp only [hrf, bind, Except.bind, rxcMp_of_ok hrf, h2]
+      · have : s3.fcntDown = (stOf s3).last := rfl
+        rw [this, hp3, refRxcs_last]; rfl
+  obtain ⟨osB, s1, rfl, hbt, hfil, hst1, hl1, hfd1⟩ := hbt
+  rw [← hfd1] at hb
+  simp only [hbt, bind, Except.bind, Bool.not_true, Bool.false_or] at hk1 ⊢
+  cases eb with
+  | true =>
+    simp only [if_true, pure, Except.pure, Except.ok.injEq, Prod.mk.injEq] at hk1 ⊢
+    obtain ⟨rfl, rfl, rfl⟩ := hk1
+    exact ⟨osB, ⟨rfl, rfl, rfl⟩, hfil⟩
+  | false =>
+    simp only [Bool.false_eq_true, if_false] at hk1 ⊢
+    rw [window_mask_joined m1 s1 hst1 hl1 f mp b hf hb]
+    cases hw : window m1 f mp with
+    | error e => rw [hw] at hk1; cases hk1
+    | ok wr =>
+      obtain ⟨o, m2⟩ := wr
+      rw [hw] at hk1
+      simp only at hk1 ⊢
+      cases hc : closeWindow cc m2 with
+      | error e => rw [hc] at hk1; cases hk1
+      | ok u =>
+        rw [hc] at hk1
+        simp only at hk1 ⊢
+        cases ea with
+        | true =>
+          simp only [if_true, pure, Except.pure, Except.ok.injEq, Prod.mk.injEq] at hk1 ⊢
+          obtain ⟨rfl, rfl, rfl⟩ := hk1
+          exact ⟨_, ⟨rfl, rfl, rfl⟩, filter_append_eq _ hfil⟩
+        | false =>
+          simp only [Bool.false_eq_true, if_false, pure, Except.pure, Except.ok.injEq, Prod.mk.injEq] at hk1 ⊢
+          obtain ⟨rfl, rfl, rfl⟩ := hk1
+          exact ⟨_, ⟨rfl, rfl, rfl⟩, filter_append_eq _ hfil⟩
+
+theorem refWin_none_last (cc : Bool) (p : PSt) (conf : Bool) (mpc : Nat) (cs : List (RxView × Int)) (f : Option (RxView × Int))
+    (mp : Nat) (eb ea : Bool) (h : (refWin cc p conf mpc cs f mp eb ea).res = some none) :
+    (refWin cc p conf mpc cs f mp eb ea).st.last = (if cc then lastAfterCs p.last mpc cs else p.last) := by
+  unfold refWin at h ⊢
+  have hb : (if cc then refRxcs p mpc cs else ⟨[], [], p⟩ : Ref).st.last = (if cc then lastAfterCs p.last mpc cs else p.last) := by
+    cases cc
+    · rfl
+    · exact refRxcs_last mpc cs p
+  generalize (if cc then refRxcs p mpc cs else ⟨[], [], p⟩ : Ref) = b at h hb ⊢
+  simp only [] at h ⊢
+  cases eb with
+  | true => simp at h
+  | false =>
+    simp only [Bool.false_eq_true, if_false] at h ⊢
+    cases hsw : specWindow b.st.last f mp with
+    | nothing => exact hb
+    | ended => rw [hsw] at h; cases ea <;> simp at h
+    | accepted N d snr => rw [hsw] at h; cases ea <;> simp at h
+
+/-- the receive procedure of a device with a session: deleting rejected frames — from `c1`, RX1, `c2`,
+RX2, each judged under the counter the reference holds when it is heard — changes neither how the
+procedure ends nor the state it leaves, and removes only `NoUpdate` entries from the reports -/
+theorem cycleC_thin (cc : Bool) (m : MacState) (s : Session) (hst : m.st = .joined s) (hl : LastOk s.fcntDown)
+    (fault : Option FaultPos) (c1 : List (RxView × Int)) (rx1 : Option (RxView × Int)) (c2 : List (RxView × Int))
+    (rx2 : Option (RxView × Int)) (mp1 mp2 : Nat) (hv1 : csOk c1 = true) (hf1 : rxOk rx1 = true) (hv2 : csOk c2 = true)
+    (hf2 : rxOk rx2 = true) (k1 : List Bool) (b1 : Bool) (k2 : List Bool) (b2 : Bool)
+    (hk1 : cc = true → LegalCs (rxcMp m) s.fcntDown k1 c1)
+    (hb1 : b1 = true → heard (RejWin (some (if cc then lastAfterCs s.fcntDown (rxcMp m) c1 else s.fcntDown)) · mp1) rx1)
+    (hk2 : cc = true → LegalCs (rxcMp m) (lastAfterCs s.fcntDown (rxcMp m) c1) k2 c2)
+    (hb2 : b2 = true → heard (RejWin (some (if cc then lastAfterCs (lastAfterCs s.fcntDown (rxcMp m) c1) (rxcMp m) c2 else s.fcntDown)) · mp2) rx2)
+    (fin : ProcEnd) (hd : List RxOut) (m' : MacState) (h : cycleC cc m fault c1 rx1 c2 rx2 mp1 mp2 = .ok (fin, hd, m')) :
+    ∃ hd', cycleC cc m fault (thinCs k1 c1) (maskRx b1 rx1) (thinCs k2 c2) (maskRx b2 rx2) mp1 mp2 = .ok (fin, hd', m') ∧
+      hd'.filter (· != noUp) = hd.filter (· != noUp) := by
+  unfold cycleC at h ⊢
+  by_cases htx : fault = some .tx
+  · simp only [htx, if_true, pure, Except.pure, Except.ok.injEq, Prod.mk.injEq] at h ⊢
+    obtain ⟨rfl, rfl, rfl⟩ := h
+    exact ⟨[], ⟨rfl, rfl, rfl⟩, rfl⟩
+  · simp only [htx, if_false] at h ⊢
+    obtain ⟨⟨r1, h1, ma⟩, hw1, hk⟩ := Except.bind_eq_ok h
+    clear h
+    obtain ⟨h1', hw1', hfil1⟩ := winC_thin cc m s hst hl c1 rx1 mp1 _ _ hv1 hf1 k1 b1 hk1 hb1 r1 h1 ma hw1
+    obtain ⟨hr1, _, _, sa, hsta, hpa, hla, _, hkeep⟩ := winC_joined cc m s hst hl c1 rx1 mp1 _ _ hv1 hf1 r1 h1 ma hw1
+    simp only [hw1', bind, Except.bind]
+    cases r1 with
+    | none =>
+      simp only [pure, Except.pure, Except.ok.injEq, Prod.mk.injEq] at hk ⊢
+      obtain ⟨rfl, rfl, rfl⟩ := hk
+      exact ⟨h1', ⟨rfl, rfl, rfl⟩, hfil1⟩
+    | some o1 =>
+      cases o1 with
+      | some o =>
+        simp only [pure, Except.pure, Except.ok.injEq, Prod.mk.injEq] at hk ⊢
+        obtain ⟨rfl, rfl, rfl⟩ := hk
+        exact ⟨h1', ⟨rfl, rfl, rfl⟩, hfil1⟩
+      | none =>
+        simp only at hk ⊢
+        obtain ⟨hca, hra⟩ := hkeep rfl
+        have hmp : rxcMp ma = rxcMp m := rxcMp_congr m ma hca (by rw [hra])
+        have hfda : sa.fcntDown = (if cc then lastAfterCs s.fcntDown (rxcMp m) c1 else s.fcntDown) := by
+          have : sa.fcntDown = (stOf sa).last := rfl
+          rw [this, hpa, refWin_none_last _ _ _ _ _ _ _ _ _ hr1.symm]; rfl
+        obtain ⟨⟨r2, h2, mb⟩, hw2, hk2'⟩ := Except.bind_eq_ok hk
+        clear hk
+        have hk2a : cc = true → LegalCs (rxcMp ma) sa.fcntDown k2 c2 := by
+          intro hcc; rw [hmp, hfda, if_pos hcc]; exact hk2 hcc
+        have hb2a : b2 = true → heard (RejWin (some (if cc then lastAfterCs sa.fcntDown (rxcMp ma) c2 else sa.fcntDown)) · mp2) rx2 := by
+          intro hb; rw [hmp, hfda]
+          cases cc
+          · exact hb2 hb
+          · exact hb2 hb
+        obtain ⟨h2', hw2', hfil2⟩ := winC_thin cc ma sa hsta hla c2 rx2 mp2 _ _ hv2 hf2 k2 b2 hk2a hb2a r2 h2 mb hw2
+        simp only [hw2']
+        have hfil : (h1' ++ h2').filter (· != noUp) = (h1 ++ h2).filter (· != noUp) := by
+          rw [List.filter_append, List.filter_append, hfil1, hfil2]
+        cases r2 with
+        | none =>
+          simp only [pure, Except.pure, Except.ok.injEq, Prod.mk.injEq] at hk2' ⊢
+          obtain ⟨rfl, rfl, rfl⟩ := hk2'
+          exact ⟨_, ⟨rfl, rfl, rfl⟩, hfil⟩
+        | some o2 =>
+          cases o2 <;>
+            (simp only [pure, Except.pure, Except.ok.injEq, Prod.mk.injEq] at hk2' ⊢
+             obtain ⟨rfl, rfl, rfl⟩ := hk2'
+             exact ⟨_, ⟨rfl, rfl, rfl⟩, hfil⟩)
+
+/-! a device that is joining -/
+
+theorem winC_thin_otaa (cc : Bool) (m : MacState) (o : OtaaState) (hst : m.st = .otaa o) (cs cs' : List (RxView × Int))
+    (f : Option (RxView × Int)) (mp : Nat) (eb ea : Bool) (b : Bool) (hb : b = true → heard RejJoin f) :
+    winC cc m cs' (maskRx b f) mp eb ea = winC cc m cs f mp eb ea := by
+  unfold winC
+  rw [between_notJoined_eq cc m (fun s hs => by rw [hst] at hs; cases hs) cs' cs]
+  cases hbw : between cc m cs with
+  | error e => rfl
+  | ok r =>
+    obtain ⟨os, fin, m1⟩ := r
+    obtain ⟨_, rfl, _⟩ := between_notJoined cc m (fun s hs => by rw [hst] at hs; cases hs) cs os fin m1 hbw
+    simp only [bind, Except.bind]
+    rw [window_otaa m1 o hst, window_otaa m1 o hst, joinAcc_mask b f hb]
+
+/-- the receive procedure of a joining device: whatever is heard on the RXC parameters, and rejected
+frames in the windows, play no part -/
+theorem cycleC_thin_otaa (cc : Bool) (m : MacState) (o : OtaaState) (hst : m.st = .otaa o) (fault : Option FaultPos)
+    (c1 c1' : List (RxView × Int)) (rx1 : Option (RxView × Int)) (c2 c2' : List (RxView × Int)) (rx2 : Option (RxView × Int))
+    (mp1 mp2 : Nat) (b1 b2 : Bool) (hb1 : b1 = true → heard RejJoin rx1) (hb2 : b2 = true → heard RejJoin rx2) :
+    cycleC cc m fault c1' (maskRx b1 rx1) c2' (maskRx b2 rx2) mp1 mp2 = cycleC cc m fault c1 rx1 c2 rx2 mp1 mp2 := by
+  unfold cycleC
+  by_cases htx : fault = some .tx
+  · simp only [htx, if_true]
+  · simp only [htx, if_false]
+    rw [winC_thin_otaa cc m o hst c1 c1' rx1 mp1 _ _ b1 hb1]
+    cases hw1 : winC cc m c1 rx1 mp1 (fault == some .before1) (fault == some .close1) with
+    | error e => rfl
+    | ok r =>
+      obtain ⟨r1, h1, ma⟩ := r
+      simp only [bind, Except.bind]
+      cases r1 with
+      | none => rfl
+      | some o1 =>
+        cases o1 with
+        | some x => rfl
+        | none =>
+          simp only
+          have hma : ma = m := by
+            have hw := winC_otaa cc m o hst c1 rx1 mp1 _ _ _ h1 ma hw1
+            split at hw
+            · cases hw.1
+            · split at hw
+              · have := hw.2.1; split at this <;> cases this
+              · exact hw.1
+          subst hma
+          rw [winC_thin_otaa cc ma o hst c2 c2' rx2 mp2 _ _ b2 hb2]
+
+/-- **while joining, what is heard on the RXC parameters changes NOTHING** (the repaired clause:
+`C07-join-aborted-by-rxc-frame`): the join procedure of a Class C device with ANY frames heard between
+TX and RX1 and between RX1 and RX2 — garbage, frames of other devices, even a JoinAccept on the wrong
+parameters — is, as a computation, the join procedure of the twin that heard none of them: same
+state, same random stream, same output, same failures.  For every state, class, fault position and
+every frame list. -/
+theorem joinC_rxc_frames_invisible {σ} (g : Rng σ) (ms : MacState × σ) (cc : Bool) (fault : Option FaultPos)
+    (c1 c2 : List (RxView × Int)) (rx1 rx2 : Option (RxView × Int)) :
+    stepC g ms (.joinC cc fault c1 rx1 c2 rx2) = stepC g ms (.joinC cc fault [] rx1 [] rx2) := by
+  simp only [stepC]
+  cases hj : macJoinOtaa g ms.1 ms.2 with
+  | error e => rfl
+  | ok r =>
+    obtain ⟨jo, m1, rs1⟩ := r
+    obtain ⟨dr, tx, region', pw, r1, r2, _, _, hm1, _, _⟩ := macJoinOtaa_ok g ms.1 ms.2 rs1 jo m1 hj
+    have hst1 : m1.st = .otaa { devNonce := (draw g ms.2).1 % 65536 } := by rw [hm1]
+    simp only [bind, Except.bind]
+    have := cycleC_thin_otaa cc m1 _ hst1 fault [] c1 rx1 [] c2 rx2 jo.tx.rx1.maxPayload.toNat jo.tx.rx2.maxPayload.toNat false false
+      (fun e => by cases e) (fun e => by cases e)
+    simp only [maskRx, Bool.false_eq_true, if_false] at this
+    rw [this]
+
+/-- **thinning one extended event by rejected frames**: same state, same random stream, same output
+up to the `NoUpdate` entries of the deleted frames -/
+theorem stepC_thin {σ} (g : Rng σ) (m m' : MacState) (rs rs' : σ) (gh : Gh) (hr : GhRel m gh) (ev : EvC) (hv : evOkC ev = true)
+    (out : OutC) (h : stepC g (m, rs) ev = .ok ((m', rs'), out)) (k1 : List Bool) (b1 : Bool) (k2 : List Bool) (b2 : Bool)
+    (hl : LegalDelC gh (rxcMp m, ev) out (.thin k1 b1 k2 b2)) :
+    ∃ out', stepC g (m, rs) (thinEvC k1 b1 k2 b2 ev) = .ok ((m', rs'), out') ∧ strip out' = strip out := by
+  cases ev with
+  | base e =>
+    simp only [LegalDelC] at hl
+    simp only [evOkC] at hv
+    refine ⟨out, ?_, rfl⟩
+    simp only [thinEvC, stepC, step_mask_eq g m rs gh hr e hv b1 b2 hl]
+    simpa only [stepC] using h
+  | joinC cc fault c1 rx1 c2 rx2 =>
+    simp only [LegalDelC] at hl
+    refine ⟨out, ?_, rfl⟩
+    simp only [thinEvC, stepC] at h ⊢
+    cases hj : macJoinOtaa g m rs with
+    | error e => rw [hj] at h; cases h
+    | ok r =>
+      obtain ⟨jo, m1, rs1⟩ := r
+      obtain ⟨dr, tx, region', pw, r1, r2, _, _, hm1, _, _⟩ := macJoinOtaa_ok g m rs rs1 jo m1 hj
+      have hst1 : m1.st = .otaa { devNonce := (draw g rs).1 % 65536 } := by rw [hm1]
+      rw [hj] at h
+      simp only [bind, Except.bind] at h ⊢
+      rw [cycleC_thin_otaa cc m1 _ hst1 fault c1 _ rx1 c2 _ rx2 _ _ b1 b2 hl.1 hl.2]
+      exact h
+  | uplinkC cc data fport conf fault c1 rx1 c2 rx2 =>
+    simp only [evOkC, Bool.and_eq_true] at hv
+    obtain ⟨⟨⟨hv1, hf1⟩, hv2⟩, hf2⟩ := hv
+    cases gh with
+    | none =>
+      refine ⟨out, ?_, rfl⟩
+      simp only [thinEvC, stepC, macSend_notJoined g m hr] at h ⊢
+      exact h
+    | some last =>
+      obtain ⟨s, hst, rfl, hlo⟩ := hr
+      simp only [thinEvC, stepC] at h ⊢
+      obtain ⟨⟨o, m1, rs1⟩, hsend, hk⟩ := Except.bind_eq_ok h
+      clear h
+      obtain ⟨dr, tx, region', pw, r1, r2, _, _, hsel, hm1, _, ho⟩ := macSend_joined g m s hst data fport conf rs rs1 o m1 hsend
+      subst ho
+      have hst1 : m1.st = .joined (sentSession s conf) := by rw [hm1]
+      have hcfg1 : m1.cfg = m.cfg := by rw [hm1]
+      have hid1 : m1.region.id = m.region.id := by rw [hm1]; exact selectTxChannel_id g m.region region' dr .data rs rs1 tx hsel
+      have hl1 : LastOk (sentSession s conf).fcntDown := hlo
+      have hmp : rxcMp m1 = rxcMp m := rxcMp_congr m m1 hcfg1 hid1
+      simp only [hsend, bind, Except.bind] at hk ⊢
+      obtain ⟨⟨fin, hd, m2⟩, hcy, hk2⟩ := Except.bind_eq_ok hk
+      clear hk
+      have hout : ∃ r d, out.out = .up (⟨⟨pw, rfOf tx.datarate tx.frequency, r1, r2⟩, descOf s m.cfg m.region.id data fport conf⟩ : SendOut) r d := by
+        cases fin <;> simp only [pure, Except.pure, Except.ok.injEq, Prod.mk.injEq] at hk2 <;>
+          (obtain ⟨_, rfl⟩ := hk2; exact ⟨_, _, rfl⟩)
+      obtain ⟨rr, dd, hout⟩ := hout
+      simp only [LegalDelC, hout] at hl
+      obtain ⟨hk1, hb1, hk2l, hb2⟩ := hl
+      have hfd : (sentSession s conf).fcntDown = s.fcntDown := rfl
+      obtain ⟨hd', hcy', hfil⟩ := cycleC_thin cc m1 _ hst1 hl1 fault c1 rx1 c2 rx2 _ _ hv1 hf1 hv2 hf2 k1 b1 k2 b2
+        (by rw [hmp, hfd]; exact hk1) (by rw [hmp, hfd]; exact hb1) (by rw [hmp, hfd]; exact hk2l) (by rw [hmp, hfd]; exact hb2)
+        fin hd m2 hcy
+      rw [hcy']
+      cases fin with
+      | resp ro =>
+        simp only [pure, Except.pure, Except.ok.injEq, Prod.mk.injEq] at hk2 ⊢
+        obtain ⟨⟨rfl, rfl⟩, rfl⟩ := hk2
+        exact ⟨_, ⟨⟨rfl, rfl⟩, rfl⟩, by simp only [strip, hfil]⟩
+      | complete =>
+        simp only [pure, Except.pure, Except.ok.injEq, Prod.mk.injEq] at hk2 ⊢
+        obtain ⟨⟨rfl, rfl⟩, rfl⟩ := hk2
+        exact ⟨_, ⟨⟨rfl, rfl⟩, rfl⟩, by simp only [strip, hfil]⟩
+      | cut =>
+        simp only [pure, Except.pure, Except.ok.injEq, Prod.mk.injEq] at hk2 ⊢
+        obtain ⟨⟨rfl, rfl⟩, rfl⟩ := hk2
+        exact ⟨_, ⟨⟨rfl, rfl⟩, rfl⟩, by simp only [strip, hfil]⟩
+
+/-- a rejected Class C reception between uplinks leaves state and random stream as they were -/
+theorem stepC_drop {σ} (g : Rng σ) (m m' : MacState) (rs rs' : σ) (gh : Gh) (hr : GhRel m gh) (ev : EvC) (hv : evOkC ev = true)
+    (out : OutC) (h : stepC g (m, rs) ev = .ok ((m', rs'), out)) (hl : LegalDelC gh (rxcMp m, ev) out .drop) :
+    m' = m ∧ rs' = rs := by
+  cases ev with
+  | base e =>
+    simp only [LegalDelC] at hl
+    exact step_drop_eq g m m' rs rs' gh hr e hv hl out.out (stepC_base g _ _ e out h).1
+  | joinC cc fault c1 rx1 c2 rx2 => exact hl.elim
+  | uplinkC cc data fport conf fault c1 rx1 c2 rx2 => exact hl.elim
+
+/-- **C07 over every extended history.**  Take any extended history (Class C receptions inside the
+receive procedure included) and any script deleting frames the REFERENCE rejects at the point where
+they are heard — between uplinks (`drop`); during `send` + receive procedure: on the RXC parameters
+before RX1, in RX1, on the RXC parameters before RX2, in RX2, each under the counter the reference
+holds at that very point of the procedure; in RX1/RX2 of a join procedure — anywhere, any number.
+The thinned history runs to the SAME final state and random stream, and produces the SAME output at
+every remaining event (uplink bytes, counters, MAC answers, ACK bit, radio configurations, responses,
+delivered payloads); its `heard` lists lack the `NoUpdate` entries of the deleted frames, nothing else. -/
+theorem historyC_rejected_invisible {σ} (g : Rng σ) (m : MacState) (rs : σ) (gh : Gh) (hr : GhRel m gh)
+    (evs : List EvC) (hv : ∀ ev ∈ evs, evOkC ev = true) (ds : List DelC) (ms' : MacState × σ) (outs : List OutC)
+    (h : runC g (m, rs) evs = .ok (ms', outs)) (hl : LegalC gh ds ((annotC g (m, rs) evs).zip outs)) :
+    ∃ outs', runC g (m, rs) (thinEvsC ds evs) = .ok (ms', outs') ∧ outs'.map strip = (thinOutsC ds outs).map strip := by
+  induction evs generalizing m rs gh ds outs with
+  | nil =>
+    have : outs = [] := by unfold runC at h; cases Except.pure_eq_ok h; rfl
+    subst this
+    refine ⟨[], ?_, ?_⟩
+    · cases ds with
+      | nil => exact h
+      | cons d ds => cases d <;> exact h
+    · cases ds with
+      | nil => rfl
+      | cons d ds => cases d <;> rfl
+  | cons ev rest ih =>
+    cases ds with
+    | nil => exact ⟨outs, h, rfl⟩
+    | cons d ds =>
+      have hrun := h
+      unfold runC at h
+      obtain ⟨⟨⟨m1, rs1⟩, o⟩, hstep, h⟩ := Except.bind_eq_ok h
+      obtain ⟨⟨ms2, os⟩, hrest, h⟩ := Except.bind_eq_ok h
+      cases Except.pure_eq_ok h
+      have hve := hv ev List.mem_cons_self
+      have hr1 := stepC_ghRel g m m1 rs rs1 ev o gh hr hve hstep
+      have hvr : ∀ e ∈ rest, evOkC e = true := fun e he => hv e (List.mem_cons_of_mem _ he)
+      rw [annotC_cons g (m, rs) (m1, rs1) ev rest o hstep, List.zip_cons_cons] at hl
+      simp only [LegalC] at hl
+      obtain ⟨outs2, hrun2, hmap2⟩ := ih m1 rs1 _ hr1 hvr ds os hrest hl.2
+      cases d with
+      | keep =>
+        refine ⟨o :: outs2, ?_, ?_⟩
+        · simp only [thinEvsC, runC, hstep, hrun2, bind, Except.bind, pure, Except.pure]
+        · simp only [thinOutsC, List.map_cons, hmap2]
+      | thin k1 b1 k2 b2 =>
+        obtain ⟨o', hstep', hstrip⟩ := stepC_thin g m m1 rs rs1 gh hr ev hve o hstep k1 b1 k2 b2 hl.1
+        refine ⟨o' :: outs2, ?_, ?_⟩
+        · simp only [thinEvsC, runC, hstep', hrun2, bind, Except.bind, pure, Except.pure]
+        · simp only [thinOutsC, List.map_cons, hmap2, hstrip]
+      | drop =>
+        obtain ⟨rfl, rfl⟩ := stepC_drop g m m1 rs rs1 gh hr ev hve o hstep hl.1
+        exact ⟨outs2, hrun2, hmap2⟩
+
+instance (gh : Gh) (e : EvL) (out : OutC) (d : DelC) : Decidable (LegalDelC gh e out d) := by
+  obtain ⟨mpc, ev⟩ := e
+  obtain ⟨oo, hd⟩ := out
+  cases d with
+  | keep => exact isTrue trivial
+  | drop => cases ev <;> (simp only [LegalDelC]; infer_instance)
+  | thin k1 b1 k2 b2 =>
+    cases ev with
+    | base e => simp only [LegalDelC]; infer_instance
+    | joinC cc fault c1 rx1 c2 rx2 => simp only [LegalDelC]; infer_instance
+    | uplinkC cc data fport conf fault c1 rx1 c2 rx2 =>
+      cases gh with
+      | none => exact isTrue (by simp [LegalDelC])
+      | some last =>
+        cases oo with
+        | up so r dl => simp only [LegalDelC]; infer_instance
+        | done => exact isTrue (by simp [LegalDelC])
+        | notJoined => exact isTrue (by simp [LegalDelC])
+        | join o r => exact isTrue (by simp [LegalDelC])
+        | rxc rf o => exact isTrue (by simp [LegalDelC])
+
+instance : (gh : Gh) → (ds : List DelC) → (t : List (EvL × OutC)) → Decidable (LegalC gh ds t)
+  | _, [], _ => isTrue (by simp [LegalC])
+  | _, _ :: _, [] => isTrue (by simp [LegalC])
+  | gh, d :: ds, x :: t =>
+    have := instDecidableLegalC (ghNextC gh x.1 x.2) ds t
+    by simp only [LegalC]; infer_instance
+
+/-- **C07 on the async front-end, for EVERY script, both classes.**  Two sessions of the async
+front-end model from the same device state, the second of which hears what the first hears minus
+frames the reference rejects where they are heard (its extended history is the first's, thinned by a
+legal deletion script): if both return, they end in the same MAC state and generator state, and their
+outputs (`ObsRel`: the front-end's answers and the frames handed to the radio, call by call) are those
+of two runs that agree at every remaining event up to `NoUpdate` entries. -/
+theorem asyncC_rejected_invisible {σ} (g : Rng σ) (cfg : DevCfg) (d : DevRun) (rs : σ) (gh : Gh) (hr : GhRel d.m gh)
+    (ops ops' : List AsyncOp) (hv : ∀ op ∈ ops, op.allView viewOk = true) (ds : List DelC)
+    (habs : abstractSessionC cfg ops' = thinEvsC ds (abstractSessionC cfg ops))
+    (obs obs' : List OpObs) (d1 d2 : DevRun) (rs1 rs2 : σ)
+    (h : asyncOps g cfg d rs ops = .ok (obs, d1, rs1)) (h' : asyncOps g cfg d rs ops' = .ok (obs', d2, rs2)) :
+    ∃ outs outs', AllRel ObsRel obs outs ∧ AllRel ObsRel obs' outs' ∧
+      (LegalC gh ds ((annotC g (d.m, rs) (abstractSessionC cfg ops)).zip outs) →
+        d2.m = d1.m ∧ rs2 = rs1 ∧ outs'.map strip = (thinOutsC ds outs).map strip) := by
+  obtain ⟨outs, hrun, hobs⟩ := asyncOps_runC g cfg d rs ops obs d1 rs1 h
+  obtain ⟨outs', hrun', hobs'⟩ := asyncOps_runC g cfg d rs ops' obs' d2 rs2 h'
+  refine ⟨outs, outs', hobs, hobs', fun hl => ?_⟩
+  obtain ⟨outs2, hrun2, hmap⟩ :=
+    historyC_rejected_invisible g d.m rs gh hr _ (abstractOps_evOkC cfg ops hv) ds _ outs hrun hl
+  rw [habs] at hrun'
+  unfold abstractSessionC at hrun'
+  rw [hrun2] at hrun'
+  simp only [Except.ok.injEq, Prod.mk.injEq] at hrun'
+  obtain ⟨⟨e1, e2⟩, rfl⟩ := hrun'
+  exact ⟨e1.symm, e2.symm, hmap⟩
+
+/-! non-vacuity: a Class C session; a replay heard between TX and RX1 right after the frame it
+replays, garbage before RX2 and a forged frame in RX2 are deleted — same final state, same outputs
+up to the `NoUpdate` entries -/
+def demoHistoryC : List EvC :=
+  [ .base (.joinAbp 7 1 2),
+    .uplinkC true [1] 1 false none [(fr 5 (some 5), 0), (fr 5 (some 5), 0)] none [(.garbage, 0), (fr 6 (some 6), 0)] (some (fr 9 none, 0)),
+    .base (.rxc .garbage 0 51),
+    .uplinkC true [2] 1 true none [] none [] none ]
+
+def demoScriptC : List DelC := [.keep, .thin [false, true] false [true, false] true, .drop, .keep]
+
+def m0C : MacState × Nat := (MacState.init (RegionState.init .EU868) 14 0, 1)
+
+example : ∀ ev ∈ demoHistoryC, evOkC ev = true := by decide
+example : thinEvsC demoScriptC demoHistoryC =
+  [ .base (.joinAbp 7 1 2),
+    .uplinkC true [1] 1 false none [(fr 5 (some 5), 0)] none [(fr 6 (some 6), 0)] none,
+    .uplinkC true [2] 1 true none [] none [] none ] := by rfl
+example : (runC lcg m0C demoHistoryC).toOption.map
+    (fun r => decide (LegalC none demoScriptC ((annotC lcg m0C demoHistoryC).zip r.2))) = some true := by decide +kernel
+example : (runC lcg m0C demoHistoryC).toOption.map (fun r => r.2.map (fun o => o.heard.length)) = some [0, 4, 0, 0] := by
+  decide +kernel
+example : (runC lcg m0C (thinEvsC demoScriptC demoHistoryC)).toOption.map (fun r => r.2.map (fun o => o.heard.length)) = some [0, 2, 0] := by
+  decide +kernel
+/-- deleting an ACCEPTED frame is not legal -/
+example : (runC lcg m0C demoHistoryC).toOption.map
+    (fun r => decide (LegalC none [.keep, .thin [true] false [] false] ((annotC lcg m0C demoHistoryC).zip r.2))) = some false := by
+  decide +kernel
+
+/-! ### a frame heard by a JOINING Class C device (finding `C07-join-aborted-by-rxc-frame`, repaired)
+
+`Mac::handle_rxc` answers `Err(NotJoined)` while the device is joining, and `between_windows` used to
+propagate it (`self.mac.handle_rxc(..)?`): ANY frame — garbage, a frame of another device — heard on
+the RXC parameters between the JoinRequest and RX1 (or between RX1 and RX2) aborted the join procedure
+with `Err(Mac)`; RX1/RX2, where the JoinAccept arrives, were never opened, while the twin device that
+did not hear that frame joins: a frame the device certainly "does not accept" was NOT invisible.  The
+repair (repo-fixes/C07-0001-…) takes `Err(NotJoined)` as `NoUpdate`; `joinC_rxc_frames_invisible` above
+is the clause at full strength on the repaired model, and the deletion scripts may delete any frame
+from `c1`/`c2` of a join procedure. -/
+
+def goodJa : RxView := .joinAccept { micOk := true, devAddr := 9, dlSettings := 0, rxDelay := 1, cfList := none, nwkKey := 5, appKey := 6 }
+
+/-- the join procedure of a Class C device that hears garbage between TX and RX1, and a frame of
+somebody else between RX1 and RX2 … -/
+def joinNoise : List EvC := [ .joinC true none [(.garbage, 0)] none [(fr 3 none, 0), (.garbage, 1)] (some (goodJa, 0)) ]
+/-- … and of its twin that does not -/
+def joinQuiet : List EvC := [ .joinC true none [] none [] (some (goodJa, 0)) ]
+
+def isJoined (m : MacState) : Bool := match m.st with | .joined _ => true | _ => false
+
+/-- both join (`JoinSuccess` in RX2) -/
+example :
+    (runC lcg m0C joinQuiet).toOption.map (fun r => (r.2.map (fun o => match o.out with | .join _ resp => some resp | _ => none),
+        isJoined r.1.1)) = some ([some (some .joinSuccess)], true) ∧
+    (runC lcg m0C joinNoise).toOption.map (fun r => (r.2.map (fun o => match o.out with | .join _ resp => some resp | _ => none),
+        isJoined r.1.1)) = some ([some (some .joinSuccess)], true) := by
+  constructor <;> decide +kernel
+
+example : thinEvsC [.thin [true] false [true, true] false] joinNoise = joinQuiet := by rfl
+
+/-- op lines that replay the finding on the REAL async front-end (`lvharness eval`) and on the Lean
+device model (`lvdriver`): the quiet twin opens RX1 and RX2 and answers `Ok(NoJoinAccept)`; the device
+that hears one garbage byte on the RXC parameters must do the same (before the repair: `Err(Mac)` after
+the first `rx_continuous`, neither window opened); a Class A device (third line) never listens there -/
+def joinC_rxc_frame_ops : List String :=
+  [ "C07 adev EU868 1 - 15 40 1 57 ; ajoin | O O O O O O O O O O O O ; snap",
+    "C07 adev EU868 1 - 15 40 1 57 ; ajoin | O O R0/ff/g O O O O O O O O O ; snap",
+    "C07 adev EU868 1 - 15 40 0 57 ; ajoin | O O R0/ff/g O O O O O O O O O ; snap" ]
+
 end C07
 
 #print axioms C07.rejected_noop
@@ -539,3 +1227,7 @@ end C07
 #print axioms C07.step_drop_eq
 #print axioms C07.history_rejected_invisible
 #print axioms C07.history_rejected_insertable
+#print axioms C07.stepC_thin
+#print axioms C07.historyC_rejected_invisible
+#print axioms C07.asyncC_rejected_invisible
+#print axioms C07.joinC_rxc_frames_invisible
